@@ -419,3 +419,28 @@ PROPS["C16"] = dict(
     assumptions=["leak detection is off for this check: a user-buffer pool that overflows into a lazily created base allocator leaks that 1-byte object "
                  "(RapidJSON heritage, outside the statement); chunk release is checked by the recording base allocator instead"],
 )
+
+# ------------------------------------------------------------------------------------------------ C17
+TSAN_ENV = {"TSAN_OPTIONS": "halt_on_error=0:exitcode=66:history_size=7:second_deadlock_stack=1:report_signal_unsafe=0"}
+PROPS["C17"] = dict(
+    title="Independent and shared read-only documents are race-free",
+    rule=("thread teams of 8 or 16 under ThreadSanitizer: W1 every thread parses, mutates (AddMember/CreateMap/RemoveMember/PushBack/"
+          "Erase/operator[] on a missing key of its own document), serialises, on-demand-extracts, UpdateLazy-s and ParseSchema-s its "
+          "own documents (results compared with a single-threaded run of the same work); W2 one document built before the threads "
+          "start, with and without lookup maps, read through every const accessor incl. FindMember(view|ptr,len), HasMember, "
+          "operator[] on existing AND missing keys, iteration, Back, Capacity, AtPointer (pointer and variadic), operator==/!= against a "
+          "twin, Serialize into private buffers; W3 (build with -DSONIC_LOCKED_ALLOCATOR) one pool shared by reference: 200 "
+          "Malloc/Realloc per thread with per-thread fill patterns, post-join disjointness/alignment/content check, and one document "
+          "per thread built on the shared pool; W3b the same storm through per-thread COPIES of the allocator handle. A ticket counter "
+          "records which thread performed each of the first 48 operations: distinct = distinct interleaving prefixes observed"),
+    runs=[
+        dict(name="tsan-hsw", src="thread_harness.cpp", cfg="tsan-hsw", env=TSAN_ENV, shards=4, shards_quick=4),
+        dict(name="tsan-hsw-locked", src="thread_harness.cpp", cfg="tsan-hsw+SONIC_LOCKED_ALLOCATOR", env=TSAN_ENV, shards=4, shards_quick=4),
+        dict(name="prod-hsw-locked", src="thread_harness.cpp", cfg="prod-hsw+SONIC_LOCKED_ALLOCATOR", env={}, shards=4, shards_quick=4, args=["--scale", "4"]),
+    ],
+    require=["thread-team-runs", "W1:own-documents(parse,mutate,serialize,on-demand,UpdateLazy,ParseSchema)", "W2:shared-read-only-document",
+             "W2:operator[]-on-missing-key", "W2:shared-document-with-lookup-map", "W3:shared-pool-by-reference(locked)",
+             "W3:documents-on-the-shared-pool", "W3b:shared-pool-through-handle-copies(locked)", "distinct-interleaving-prefixes(first 48 tickets)"],
+    assumptions=["ThreadSanitizer judges the accesses that were executed (happens-before); the runtime-dispatch build cannot start under TSan (ifunc resolver), "
+                 "so the static AVX2 build is used"],
+)
